@@ -110,6 +110,12 @@ macro_rules! float_suite {
                 let want = if $be { x.to_be_bytes() } else { x.to_le_bytes() };
                 let nat = stored == want && back.to_bits() == bits && rt == stored
                     && ToPrimitive::to_u64(&p) == ToPrimitive::to_u64(&x) && ToPrimitive::to_i64(&p) == ToPrimitive::to_i64(&x)
+                    && Zero::is_zero(&p) == Zero::is_zero(&x)
+                    && <$P as num_traits::NumCast>::from(bits as usize).map(|v| v.to_bytes()) == <$N as num_traits::NumCast>::from(bits as usize).map(|v| <$P>::from(v).to_bytes())
+                    && ToPrimitive::to_usize(&p) == ToPrimitive::to_usize(&x)
+                    && <$P as num_traits::NumCast>::from(bits as u64).map(|v| v.to_bytes()) == <$N as num_traits::NumCast>::from(bits as u64).map(|v| <$P>::from(v).to_bytes())
+                    && <$P as FromPrimitive>::from_u64(bits as u64).map(|v| v.to_bytes()) == <$N as FromPrimitive>::from_u64(bits as u64).map(|v| <$P>::from(v).to_bytes())
+                    && <$P as FromPrimitive>::from_i64(bits as i64).map(|v| v.to_bytes()) == <$N as FromPrimitive>::from_i64(bits as i64).map(|v| <$P>::from(v).to_bytes())
                     && <$P as FlatBase>::ALIGN == 1 && std::mem::align_of::<$P>() == 1 && std::mem::size_of::<$P>() == $n;
                 writeln!(out, "PC {} {} f {} => bytes={} back={} rt={} al={} sz={} nat={}", $be as u8, $n, hex(&bits.to_le_bytes()), hex(&stored), hex(&back.to_bits().to_le_bytes()), hex(&rt), <$P as FlatBase>::ALIGN, std::mem::size_of::<$P>(), nat as u8).unwrap();
             };
@@ -129,10 +135,24 @@ macro_rules! float_suite {
                     let nat = r.to_bits() == rn.to_bits() || (r.is_nan() && rn.is_nan());
                     writeln!(out, "PX {} {} f {} {} {} => nat={}", $be as u8, $n, op, hex(&a.to_bits().to_le_bytes()), hex(&b.to_bits().to_le_bytes()), nat as u8).unwrap();
                 }
-                let nat = p.partial_cmp(&q) == a.partial_cmp(b) && (p == q) == (p.to_bytes() == q.to_bytes()) && (-p).to_bytes() == <$P>::from(-*a).to_bytes();
+                let assign_ok = {
+                    let same = |r: $P, rn: $N| { let r: $N = r.into(); r.to_bits() == rn.to_bits() || (r.is_nan() && rn.is_nan()) };
+                    let mut t = p; t += q; let o1 = same(t, a + b);
+                    let mut t = p; t -= q; let o2 = same(t, a - b);
+                    let mut t = p; t *= q; let o3 = same(t, a * b);
+                    let mut t = p; t /= q; let o4 = same(t, a / b);
+                    let mut t = p; t %= q; let o5 = same(t, a % b);
+                    o1 && o2 && o3 && o4 && o5
+                };
+                let nat = assign_ok && p.partial_cmp(&q) == a.partial_cmp(b) && (p == q) == (p.to_bytes() == q.to_bytes()) && (-p).to_bytes() == <$P>::from(-*a).to_bytes();
                 writeln!(out, "PX {} {} f cmp {} {} => nat={}", $be as u8, $n, hex(&a.to_bits().to_le_bytes()), hex(&b.to_bits().to_le_bytes()), nat as u8).unwrap();
             } }
-            let consts_ok = <$P>::zero().to_bytes() == <$P>::from(0.0 as $N).to_bytes() && <$P>::one().to_bytes() == <$P>::from(1.0 as $N).to_bytes() && <$P>::min_value().to_bytes() == <$P>::from(<$N>::MIN).to_bytes() && <$P>::max_value().to_bytes() == <$P>::from(<$N>::MAX).to_bytes();
+            let radix_ok = ["0", "-0", "1.5", "-2.25", "1e3", "inf", "nan", "x", "", "7"].iter().all(|t| {
+                let a = <$P as num_traits::Num>::from_str_radix(t, 10).ok().map(|v| { let n: $N = v.into(); n.to_bits() });
+                let b = <$N as num_traits::Num>::from_str_radix(t, 10).ok().map(|v| v.to_bits());
+                a == b || (a.is_some() && b.is_some() && <$N>::from_bits(a.unwrap()).is_nan() && <$N>::from_bits(b.unwrap()).is_nan())
+            });
+            let consts_ok = radix_ok && <$P>::zero().to_bytes() == <$P>::from(0.0 as $N).to_bytes() && <$P>::one().to_bytes() == <$P>::from(1.0 as $N).to_bytes() && <$P>::min_value().to_bytes() == <$P>::from(<$N>::MIN).to_bytes() && <$P>::max_value().to_bytes() == <$P>::from(<$N>::MAX).to_bytes();
             writeln!(out, "PX {} {} f consts - - => nat={}", $be as u8, $n, consts_ok as u8).unwrap();
         }
     };
